@@ -1,6 +1,7 @@
 """vt.world -- builds one simulated network of real stacks for a case and records
 what the monitors need: deliveries per listener, API call results, liveness."""
 import os
+import threading
 import sys
 import random
 import logging
@@ -153,16 +154,16 @@ class World:
         n0 = len(self.bus.frames)
         try:
             r = fn(*a, **kw)
-            rec = dict(what=what, t0=t0, t1=self.sim.now, ret=r, exc=None, frames_before=n0, frames_after=len(self.bus.frames))
+            rec = dict(what=what, t0=t0, t1=self.sim.now, ret=r, exc=None, frames_before=n0, frames_after=len(self.bus.frames), thread=threading.get_ident())
         except engine.SimThreadKilled:
             raise
         except engine.Runaway as e:
             self.runaway.append('%s during %s' % (e, what))
             rec = dict(what=what, t0=t0, t1=self.sim.now, ret=None, exc=repr(e), exc_type='Runaway',
-                       frames_before=n0, frames_after=len(self.bus.frames))
+                       frames_before=n0, frames_after=len(self.bus.frames), thread=threading.get_ident())
         except Exception as e:
             rec = dict(what=what, t0=t0, t1=self.sim.now, ret=None, exc=repr(e), exc_type=type(e).__name__,
-                       frames_before=n0, frames_after=len(self.bus.frames))
+                       frames_before=n0, frames_after=len(self.bus.frames), thread=threading.get_ident())
         self.calls.append(rec)
         return rec
 
